@@ -178,7 +178,7 @@ def make_custom(cls, which):
     return d
 
 
-def _with(cls, attrs, base=None):
+def _with(cls, attrs, base=None, consistent=False):
     """Minimal valid description containing all `attrs` (attrs may belong to the same exclusivity group)."""
     d = copy.deepcopy(base) if base is not None else M.minimal(cls, with_attr=attrs[0] if attrs else None)
     types = {a: (k, t) for a, k, t in M.decl(cls)}
@@ -204,6 +204,10 @@ def _with(cls, attrs, base=None):
         elif a not in d["kw"]:
             k, t = types[a]
             d["kw"][a] = M.minimal_scalar(t) if k == "elem" else M.minimal(t.__type__)
+    if base is not None and consistent:
+        # boundary obligations (must be accepted): generated surrounding content was consistent with the class's hand-written constraints before `attrs` were
+        # added; make it so again (only ever adds what such a constraint asks for)
+        M._apply_fixers_deterministic(d)
     return d
 
 
@@ -220,10 +224,10 @@ def build_violation(ob, base=None):
         desc = _with(cls, [ob["attr"]], base)
         desc["kw"][ob["attr"]] = ["raw", ob["token"]]
     elif kind in ("string-over-limit", "string-at-limit"):
-        desc = _with(cls, [ob["attr"]], base)
+        desc = _with(cls, [ob["attr"]], base, consistent=kind == "string-at-limit")
         desc["kw"][ob["attr"]] = ["str", ob.get("ch", "x") * ob["n"]]
     elif kind in ("integer-over-limit", "integer-over-limit-negative", "integer-at-limit"):
-        desc = _with(cls, [ob["attr"]], base)
+        desc = _with(cls, [ob["attr"]], base, consistent=kind == "integer-at-limit")
         desc["kw"][ob["attr"]] = ["int", ob["value"]]
     elif kind in ("two-of-at-most-one", "two-of-exactly-one"):
         desc = _with(cls, [ob["a"], ob["b"]], base)
